@@ -140,6 +140,13 @@ pub fn btreemap_add_or_insert<K: Ord + Clone>(m: &mut BTreeMap<K, F64>, k: K, c:
         old(m)@.contains_key(k) ==> r@ == xr_add(old(m)@[k]@, c@),
         !old(m)@.contains_key(k) ==> r == c,
 { let v = m.entry(k).and_modify(|v| v.v += c.v).or_insert(c); *v }
+// BTreeMap::entry(k).or_insert(c) (without and_modify): c is stored only when the key is absent; returns the stored value (T4)
+#[verifier::external_body]
+pub fn btreemap_or_insert<K: Ord + Clone>(m: &mut BTreeMap<K, F64>, k: K, c: F64) -> (r: F64)
+    ensures final(m)@ == old(m)@.insert(k, r),
+        old(m)@.contains_key(k) ==> r == old(m)@[k],
+        !old(m)@.contains_key(k) ==> r == c,
+{ let v = m.entry(k).or_insert(c); *v }
 #[verifier::external_body]
 pub fn vec_to_btreeset(v: Vec<u64>) -> (r: BTreeSet<u64>) ensures r@ =~= v@.to_set() { v.into_iter().collect() }
 // Option<&T>::copied()
